@@ -73,7 +73,9 @@ func etbProp(c etbCase) ev.Outcome {
 	}
 	// every record exactly once, unchanged
 	in, out := mon.Bag{}, mon.Bag{}
-	key := func(vals string, retr bool, t time.Time) string { return fmt.Sprintf("%s retr=%v t=%d", vals, retr, mon.NsOf(t)) }
+	key := func(vals string, retr bool, t time.Time) string {
+		return fmt.Sprintf("%s retr=%v t=%d", vals, retr, mon.NsOf(t))
+	}
 	for _, m := range c.Msgs {
 		if m.Kind == "rec" {
 			in.Add(key(mon.RowKey(gen.Octs(m.Vals)), m.Retr, mon.TimeOf(m.T)), 1)
@@ -153,7 +155,7 @@ func TestC18(t *testing.T) {
 	ev.Check(t, r, "pipelines", ev.N(60000, 1500000), srig.Gen(8), c18PipelineProp)
 	ev.Check(t, r, "event_time_buffer", ev.N(60000, 1500000), func(t *rapid.T) etbCase {
 		timed := rapid.IntRange(0, 4).Draw(t, "timed") != 0
-		msgs, _ := mon.Changelog(t, "m", mon.ChangelogOpts{Timed: timed, MaxOps: 16}, func(t *rapid.T, label string) []gen.JV {
+		msgs, _ := mon.Changelog(t, "m", mon.ChangelogOpts{Timed: timed, MaxOps: 16, Zones: true}, func(t *rapid.T, label string) []gen.JV {
 			return []gen.JV{gen.Int(int64(rapid.IntRange(0, 3).Draw(t, label)))}
 		})
 		return etbCase{msgs}
